@@ -361,6 +361,75 @@ def const_lookup_order(ctx):
                     f'the wrong value', f.file, f.line)
 
 
+def segment_index_pairs(ctx):
+    """A storage location is a (segment, index) pair.  Wherever the
+    evaluator rebinds the segment it reads from (following a reference) it
+    must rebind the index with it: an index that belongs to the old segment
+    addresses an unrelated cell of the new one."""
+    repo = ctx.repo
+    rule = 'C13.segment-and-index-rebound-together'
+    ctx.rule(rule, 'in qvm/eval.py the two names passed together as '
+             '(segment, index) to read_array / read_struct / get_cell are '
+             'reassigned together: a branch that assigns the segment name '
+             'also assigns the index name (following a REFERENCE switches '
+             'both)')
+    n = 0
+    for f in repo.all_functions():
+        if f.module.name != 'qvm.eval':
+            continue
+        pairs = set()
+        for c in walk_shallow(f.node):
+            if isinstance(c, ast.Call) and isinstance(c.func, ast.Attribute):
+                if c.func.attr in ('read_array', 'read_struct') and \
+                        len(c.args) >= 2 and \
+                        isinstance(c.args[0], ast.Name) and \
+                        isinstance(c.args[1], ast.Name):
+                    pairs.add((c.args[0].id, c.args[1].id))
+                if c.func.attr == 'get_cell' and \
+                        isinstance(c.func.value, ast.Name) and c.args and \
+                        isinstance(c.args[0], ast.Name):
+                    pairs.add((c.func.value.id, c.args[0].id))
+        params = {a.arg for a in f.node.args.args}
+        for seg, idx in sorted(pairs):
+            if seg in params and idx in params and not any(
+                    isinstance(x, ast.Name) and x.id == seg and
+                    isinstance(x.ctx, ast.Store)
+                    for x in walk_shallow(f.node)):
+                continue
+            # every statement list in which seg is assigned
+            for body in (b for x in ast.walk(f.node)
+                         for b in (getattr(x, 'body', None),
+                                   getattr(x, 'orelse', None))
+                         if isinstance(b, list)):
+                def assigned(name, stmts):
+                    for st in stmts:
+                        if isinstance(st, ast.Assign):
+                            for t in st.targets:
+                                for e in (t.elts if isinstance(
+                                        t, (ast.Tuple, ast.List)) else [t]):
+                                    if isinstance(e, ast.Name) and \
+                                            e.id == name:
+                                        return st
+                    return None
+                sa = assigned(seg, body)
+                if sa is None:
+                    continue
+                n += 1
+                ia = assigned(idx, body)
+                construct = (f'{f.file}:{f.qualname}:'
+                             f'{unparse(sa.value)[:40]}')
+                ctx.instance(rule, construct,
+                             sample={'index_rebound': ia is not None})
+                if ia is None:
+                    ctx.finding(rule, construct,
+                                f'{f.qualname} rebinds the segment '
+                                f'(`{unparse(sa)[:60]}`) without rebinding '
+                                f'the index it is used with: later reads '
+                                f'address the new segment at the old '
+                                f'variable offset', f.file, sa.lineno)
+    ctx.floor('segment rebinding sites in qvm/eval.py', n, 2)
+
+
 def run(ctx):
     ctx.clauses = [
         'evaluation is read-only (effects over the call tree of do_print)',
@@ -381,9 +450,11 @@ def run(ctx):
     frame_guard(ctx)
     shared_layout(ctx)
     const_lookup_order(ctx)
+    segment_index_pairs(ctx)
     from .. import strides
     strides.check_reader_side(ctx, 'C13',
                               4 if ctx.tier == 'thorough' else 3)
+    strides.check_accessor(ctx, 'C13', 4 if ctx.tier == 'thorough' else 3)
     return ('Effects and escape analysis over the class-hierarchy call graph '
             'rooted at Cmd.do_print: no machine-state write and no CPU '
             'handler is reachable; explicit raises on that path are compared '
